@@ -738,7 +738,19 @@ pub fn check_basic_tty(raw: &str, facts: &[Fact]) -> Vec<Violation> {
     if std::env::var_os("VERIF_DUMP").is_some() && got != exp {
         eprintln!("--- raw\n{}\n--- rendered\n{screen}\n---", raw.escape_debug().to_string().replace("\\n", "\\n\n"));
     }
-    multiset_diff("terminal (colours on, rendered)", &exp, &got).map(|d| vec![v("terminal-tty/facts", d)]).unwrap_or_default()
+    let mut viol: Vec<Violation> = multiset_diff("terminal (colours on, rendered)", &exp, &got).map(|d| vec![v("terminal-tty/facts", d)]).unwrap_or_default();
+    // "Nothing that did not happen appears": in terminal mode a step in progress is shown by a line
+    // without a status mark, which its result erases and replaces. Every step of a complete stream
+    // has its result, so no such line may be left on the screen.
+    if viol.is_empty() {
+        if let Some(stale) = screen.lines().find(|l| {
+            let t = l.trim_start();
+            l.len() > t.len() && ["Given ", "When ", "Then ", "And ", "But "].iter().any(|k| t.starts_with(k))
+        }) {
+            viol.push(v("terminal-tty/stale-step-line", format!("the rendered screen still shows a step as being in progress (a step line without a status mark): {stale:?}")));
+        }
+    }
+    viol
 }
 
 pub fn check_basic(text: &str, facts: &[Fact]) -> Vec<Violation> {
